@@ -34,6 +34,8 @@ AclAllows(c) ==
     [] c = "denyA" -> FALSE
     [] c = "denyOther" -> TRUE
     [] c = "allowA_denyA" -> "AllowBeatsDeny" \in Deviations   \* on both lists: deny wins
+    [] c = "allowOther_denyOther" -> FALSE   \* both lists configured, A on neither: absent from the allow list
+    [] c = "allowA_denyOther" -> TRUE        \* both lists configured, A allowed and not denied
     [] OTHER -> FALSE
 
 (* which key signed, and did it sign exactly the request bytes? *)
@@ -97,7 +99,7 @@ AcceptOnlyIfTrusted ==
   last.out = "accepted" /\ last.ep[1] \notin {"revoke", "config"} =>
      /\ KeyOf(last.cred) \in trusted
      /\ SignedRequestBytes(last.cred)
-     /\ acl \notin {"allowOther", "denyA", "allowA_denyA"}
+     /\ acl \notin {"allowOther", "denyA", "allowA_denyA", "allowOther_denyOther"}
 
 RefusedUnchanged == [][last'.out = "refused" => ver' = ver]_vars
 
